@@ -656,6 +656,10 @@ impl Mp4TrackWriter {
         trak.mdia.minf.stbl.co64 = Some(Co64Box::default());
         match config.media_conf {
             MediaConfig::AvcConfig(ref avc_config) => {
+                // The profile and level bytes are taken from the SPS header.
+                if avc_config.seq_param_set.len() < 4 {
+                    return Err(Error::InvalidData("sequence parameter set is too short"));
+                }
                 trak.tkhd.set_width(avc_config.width);
                 trak.tkhd.set_height(avc_config.height);
 
